@@ -162,10 +162,23 @@ BIG_XSD = '''<xs:schema xmlns:xs="http://www.w3.org/2001/XMLSchema">
 </xs:schema>'''
 
 
+NA11_XSD = f'''<xs:schema xmlns:xs="http://www.w3.org/2001/XMLSchema" targetNamespace="{TNS}" xmlns:t="{TNS}"
+ elementFormDefault="qualified">
+ <xs:element name="r"><xs:complexType><xs:sequence>
+   <xs:element name="c" type="xs:int" maxOccurs="unbounded"/>
+   <xs:any notNamespace="##targetNamespace ##local" processContents="skip" minOccurs="0" maxOccurs="unbounded"/>
+  </xs:sequence><xs:attribute name="v" type="xs:int"/>
+  <xs:anyAttribute notNamespace="urn:x ##local" processContents="skip"/></xs:complexType></xs:element>
+</xs:schema>'''
+
+
 def schema(form: str):
     if form not in _SCHEMAS:
         import xmlschema
-        _SCHEMAS[form] = xmlschema.XMLSchema({'wild': WILD_XSD, 'big': BIG_XSD}.get(form) or xsd(form))
+        if form == 'na11':
+            _SCHEMAS[form] = xmlschema.XMLSchema11(NA11_XSD)
+        else:
+            _SCHEMAS[form] = xmlschema.XMLSchema({'wild': WILD_XSD, 'big': BIG_XSD}.get(form) or xsd(form))
     return _SCHEMAS[form]
 
 
@@ -455,7 +468,12 @@ class Tables:
         self.gov_conflicts: list = []
 
     def decl_id(self, xsd) -> int:
-        k = id(xsd)
+        k: Any = id(xsd)
+        parent = getattr(xsd, 'parent', None)
+        if type(parent).__name__.startswith('XsdAnyElement') or type(parent).__name__.startswith('Xsd11AnyElement'):
+            # wildcards.py:540-543: a lax/strict wildcard without a matching global declaration validates the child
+            # against a freshly created xs:anyType element: one declaration per (wildcard, name)
+            k = ('created', id(parent), xsd.name)
         if k not in self.decl:
             self.decl[k] = len(self.decl)
             self.keep.append(xsd)
@@ -965,6 +983,66 @@ def at_elem_opt(root, pos: tuple):
     return e
 
 
+# ------------------------------------------------------------------------------------------------
+# XSD 1.1 wildcards with notNamespace (attribute wildcard `notNamespace="urn:x ##local"` skip, element wildcard
+# `notNamespace="##targetNamespace ##local"` skip): extra attributes / children admitted and not admitted
+def na11_family(ctx: Ctx, drv: Optional[Driver]) -> None:
+    rng = ctx.rng
+    tabs = Tables()
+    reqs: list = []
+    pend: list = []
+    locs = []
+    head = f'<t:r xmlns:t="{TNS}" xmlns:x="{XNS}" xmlns:y="urn:y"'
+    nsof = {'': '', 't': TNS, 'x': XNS, 'y': 'urn:y'}
+    for di in range(ctx.pick(12, 80)):
+        cs = [str(rng.randrange(50)) for _ in range(rng.randrange(1, 4))]
+        ws = [rng.choice(['x:w', 'y:w']) for _ in range(rng.randrange(3))]
+        v = rng.choice(['', ' v="3"'])
+
+        def ser(attr: str = '', extra: Optional[tuple] = None) -> str:
+            kids = [f'<t:c>{c}</t:c>' for c in cs] + [f'<{w}/>' for w in ws]
+            if extra is not None:
+                kids.insert(extra[0], f'<{extra[1]}/>')
+            return f'{head}{v}{attr}>' + ''.join(kids) + '</t:r>'
+        base = {'doc': f'na11-{di}', 'form': 'na11', 'layout': 'prefixed', 'comments': False, 'parser': 'etree'}
+        vobs = run_case(ctx, dict(base, fault=None, xml=ser()), ser(), 'na11', 'etree', None, reqs, pend, tabs=tabs)
+        loc = new_loc(vobs)
+        locs.append(loc)
+        vattrs = [['v', '3']] if v else []
+        for k in ['bogus', 'x:bogus', 't:bogus', 'y:bogus']:
+            p, _, l = k.rpartition(':')
+            admitted = nsof[p] not in (XNS, '')         # notNamespace="urn:x ##local"
+            xml = ser(f' {k}="1"')
+            if admitted:
+                case = dict(base, fault=None, admitted=True, xml=xml)
+                ctx.case(case, False, tag='admitted attribute (still valid)/na11')
+                run_case(ctx, case, xml, 'na11', 'etree', None, reqs, pend, tabs=tabs)
+            else:
+                case = dict(base, fault='extra attribute', node=[], damaged=[], xml=xml)
+                name = '{%s}%s' % (nsof[p], l) if nsof[p] else l
+                loc['fault'] = {'k': 'relabel', 'p': [], 'a': sorted(vattrs + [[name, '1']]), 'x': ''}
+                run_case(ctx, case, xml, 'na11', 'etree', (), reqs, pend, tabs=tabs, loc=loc)
+        for k in ['t:bogus', 'bogus', 'x:more']:
+            p, _, l = k.rpartition(':')
+            admitted = nsof[p] not in (TNS, '')         # notNamespace="##targetNamespace ##local"
+            i = rng.randrange(len(cs), len(cs) + len(ws) + 1) if admitted else rng.randrange(len(cs) + len(ws) + 1)
+            xml = ser('', (i, k))
+            if admitted:
+                case = dict(base, fault=None, admitted=True, xml=xml)
+                ctx.case(case, False, tag='admitted child (still valid)/na11')
+                run_case(ctx, case, xml, 'na11', 'etree', None, reqs, pend, tabs=tabs)
+            else:
+                case = dict(base, fault='extra child', node=[], damaged=[i], xml=xml)
+                name = '{%s}%s' % (nsof[p], l) if nsof[p] else l
+                loc['fault'] = {'k': 'insert', 'q': [], 'i': i, 'c': {'t': name, 'a': [], 'x': '', 'c': []}}
+                run_case(ctx, case, xml, 'na11', 'etree', (i,), reqs, pend, tabs=tabs, loc=loc)
+    for c in tabs.own_conflicts[:2] + tabs.gov_conflicts[:2]:
+        ctx.mismatch('H-own / H-gov (XSD 1.1 notNamespace family)', c['key'], c['now'], c['first'])
+    if drv is not None:
+        compare(ctx, drv, reqs, pend)
+        compare_localise(ctx, drv, locs)
+
+
 def renders(ctx: Ctx, drv: Optional[Driver]) -> None:
     """get_prefixed_qname on random maps against the model; a rendered name must read back to the tag"""
     from xmlschema.utils.qnames import get_prefixed_qname
@@ -1019,6 +1097,7 @@ def run(ctx: Ctx, driver_ok: bool) -> None:
                                'H-gov comparisons': tabs.gov_checks, 'H-gov conflicts': len(tabs.gov_conflicts),
                                'declarations': len(tabs.decl)}
     wild_family(ctx, drv)
+    na11_family(ctx, drv)
     renders(ctx, drv)
     lazy_paths(ctx, drv)
     ctx.extra['explanation'] = ('every fault of the catalogue at every node (documents <= 40 nodes exhaustively, 40 seeded '
